@@ -120,6 +120,7 @@ type WorldSpec struct {
 	ZKMinSessionMs int64  `json:"zk_min_session_ms,omitempty"`
 	PreConverged   bool   `json:"pre_converged"` // start with semi-sync flags / znodes already in the converged state
 	Burst          bool   `json:"burst,omitempty"`
+	Steady         bool   `json:"steady,omitempty"`
 	AutoResetupMs  int64  `json:"auto_resetup_ms,omitempty"` // external tooling: rebuild a host this long after its resetup file appears
 }
 
